@@ -130,7 +130,7 @@ impl Property for C12 {
         true
     }
     fn cases(&self, tier: Tier) -> u32 {
-        tier.pick(2400, 30_000)
+        tier.pick(8_000, 80_000)
     }
     fn strategy(&self, _tier: Tier) -> BoxedStrategy<Abs> {
         let base = prop_oneof![
